@@ -41,6 +41,32 @@ def valid_node(sch, g, tname, tries=6, budget=8):
     return None
 
 
+def sibling_run(sch, rnd, g, maxlen=2):
+    """A list of 1..maxlen library nodes that are consecutive children of one parent in a
+    freshly generated valid document (so the fragment is well-formed: never a mix of block
+    and inline nodes), or None."""
+    try:
+        d, p = g.doc()
+    except Exception:
+        return None
+    parents = []
+
+    def walk(node):
+        if node.child_count:
+            parents.append(node)
+            for c in node.content.content:
+                if not c.is_text:
+                    walk(c)
+
+    walk(d)
+    if not parents:
+        return None
+    par = rnd.choice(parents)
+    k = rnd.randint(1, min(maxlen, par.child_count))
+    i = rnd.randint(0, par.child_count - k)
+    return list(par.content.content[i:i + k])
+
+
 def gen_op(sch, rnd, g, doc, slices, kinds=None):
     """One operation for the current document `doc` of a Transform."""
     from prosemirror.model import Fragment, Slice
@@ -80,8 +106,7 @@ def gen_op(sch, rnd, g, doc, slices, kinds=None):
         return Op(name, {"from": a, "to": b, "slice": s.to_json(), "open": [s.open_start, s.open_end]}, lambda tr: tr.replace(a, b, s))
     if name == "replace_with":
         a, b = pair()
-        k = rnd.randint(1, 2)
-        nodes = [x for x in (some_node() for _ in range(k)) if x is not None]
+        nodes = sibling_run(sch, rnd, g) if rnd.random() < 0.5 else [x for x in [some_node()] if x is not None]
         if not nodes:
             return gen_op(sch, rnd, g, doc, slices, ["delete"])
         content = nodes[0] if len(nodes) == 1 and rnd.random() < 0.5 else Fragment.from_(nodes)
